@@ -10,7 +10,7 @@ from vf.cmp import close, circ_diff
 from vf.oracle import formats as F
 
 KINDS = ["triaxys_dir", "triaxys_nondir", "ndbc_realtime", "ndbc_history", "ndbc_1d", "spotter_csv", "spotter_json", "datawell",
-         "obscape", "ww3_station", "swan", "swan", "xwaves", "swanmulti_now", "swanmulti_sites"]
+         "obscape", "ww3_station", "swan", "swan", "xwaves", "swanmulti_now", "swanmulti_sites", "swangrid_one", "swangrid_hot"]
 
 
 def run(ctx):
@@ -161,6 +161,10 @@ def do_ndbc(rec, rng, ws, xr, d, kind):
     dd = float(rng.choice([10.0, 5.0, 15.0]))
     dirs = np.arange(0, 360, dd)
     out = reader(rec, "ndbc", key, lambda: ws.read_ndbc_ascii(paths if directional else paths[0], dirs=dirs) if directional else ws.read_ndbc_ascii(paths[0]))
+    if directional:
+        backend_same(rec, rng, xr, "ndbc_ascii", paths, out, dirs=dirs)
+    else:
+        backend_same(rec, rng, xr, "ndbc_ascii", paths[0], out)
     if out is None or not times_ok(rec, "ndbc", key, out, t["time"], "m"):
         return
     fo = np.asarray(out["freq"].values, dtype="float64")
@@ -418,6 +422,106 @@ def do_swanmulti(rec, rng, ws, xr, d, kind):
     ok, worst = close(got, want, 1e-9)
     pos = np.allclose(out["lon"].values, xs, atol=1e-9) and np.allclose(out["lat"].values, ys, atol=1e-9)
     (rec.ok("swan_multi", key) if ok and pos else rec.bad("swan_multi", key, {"worst_over_tol": worst, "positions_ok": bool(pos)}, "swans-sites-wrong"))
+
+def do_swangrid(rec, rng, ws, xr, d, kind):
+    """Gridded SWAN ASCII files (every point listed with its own longitude and latitude, longitude-major as SWAN hotfiles
+    and tests/sample_files list them): read_swan must put every spectrum at the latitude / longitude the file gives for
+    it; read_hotswan must merge the parts of a parallel run (split along the longer grid side, one shared row / column
+    that only one part computed, the other holding zeros there) into the whole grid."""
+    nf, nd = int(rng.integers(3, 10)), int(rng.choice([8, 12, 24]))
+    f = 0.04 * 1.1 ** np.arange(nf)
+    th = (360.0 / nd) * np.arange(nd)
+    t0 = np.datetime64("2021-11-30T21:00:00")
+    nx, ny = int(rng.integers(1, 6)), int(rng.integers(1, 6))
+    if kind == "swangrid_hot" and max(nx, ny) < 3:
+        nx = int(rng.integers(3, 7))
+    if kind == "swangrid_hot":
+        nx, ny = max(nx, 2), max(ny, 2)                  # a one-bin-wide grid has no "longer side" to cut across
+        if nx == ny:
+            ny = ny - 1 if ny > 2 else ny + 1            # parts are cut across the longer side: keep it unambiguous
+    lon0, lat0 = round(float(rng.uniform(0, 300)), 2), round(float(rng.uniform(-60, 50)), 2)
+    lons = np.round(lon0 + 0.25 * np.arange(nx), 6)
+    lats = np.round(lat0 + 0.5 * np.arange(ny), 6)
+    nt = 1 if kind == "swangrid_hot" else int(rng.integers(1, 4))
+
+    def flat(lo, la):       # longitude-major listing
+        return np.repeat(lo, len(la)), np.tile(la, len(lo))
+
+    if kind == "swangrid_one":
+        x, y = flat(lons, lats)
+        p_, times, E, fv, dv = F.swan_series(rng, d, "grid.spec", f, th, x, y, t0, nt)
+        key = "swan_grid|nx=%d|ny=%d|nt=%d" % (nx, ny, nt)
+        out = reader(rec, "swan_grid", key, lambda: ws.read_swan(p_))
+        backend_same(rec, rng, xr, "swan", p_, out)
+        want = E.reshape(nt, nx, ny, nf, nd).transpose(0, 2, 1, 3, 4)          # (time, lat, lon, freq, dir)
+    else:
+        # cut across the longer side into 2-3 parts sharing one row / column with the next part
+        along_lon = nx > ny
+        n = nx if along_lon else ny
+        nparts = 2 if n < 5 else int(rng.integers(2, 4))
+        cuts = sorted(rng.choice(np.arange(1, n - 1), nparts - 1, replace=False)) if n > 2 else [1]
+        bounds = [0] + [int(c) for c in cuts] + [n - 1]
+        x, y = flat(lons, lats)
+        _, times, E, fv, dv = F.swan_series(rng, d, "whole.tmp", f, th, x, y, t0, 1)
+        os.remove(os.path.join(d, "whole.tmp"))
+        whole = E.reshape(1, nx, ny, nf, nd)
+        paths, prev_last = [], False
+        for k in range(len(bounds) - 1):
+            a, b = bounds[k], bounds[k + 1]                 # part k holds rows a..b inclusive; row b is shared with part k+1
+            sl = slice(a, b + 1)
+            plo, pla = (lons[sl], lats) if along_lon else (lons, lats[sl])
+            part = (whole[:, sl] if along_lon else whole[:, :, sl]).copy()
+            # the shared row is computed by one of the two parts only; the other holds zeros there
+            if k + 1 < len(bounds) - 1 and rng.random() < 0.5:
+                if along_lon:
+                    part[:, -1] = 0.0
+                else:
+                    part[:, :, -1] = 0.0
+                mine_last = False
+            else:
+                mine_last = True
+            if k > 0 and prev_last:
+                if along_lon:
+                    part[:, 0] = 0.0
+                else:
+                    part[:, :, 0] = 0.0
+            prev_last = mine_last
+            px, py = flat(plo, pla)
+            paths.append(F.swan_fixed(d, "hot-%03d.hot" % (k + 1), fv, dv, px, py, t0, part.reshape(1, len(px), nf, nd)))
+        key = "swan_hot|nx=%d|ny=%d|parts=%d|cut=%s" % (nx, ny, len(paths), "lon" if along_lon else "lat")
+        hot = __import__("wavespectra.input.swan", fromlist=["read_hotswan"]).read_hotswan
+        arg = list(rng.permutation(paths)) if rng.random() < 0.5 else os.path.join(d, "hot-*.hot")
+        out = reader(rec, "swan_grid", key, lambda: hot(arg))
+        want = whole.transpose(0, 2, 1, 3, 4)
+    if out is None:
+        return
+    if not times_ok(rec, "swan_grid", key, out, times):
+        return
+    lo_, la_ = np.asarray(out["lon"].values, dtype="float64"), np.asarray(out["lat"].values, dtype="float64")
+    if lo_.shape != lons.shape or la_.shape != lats.shape or np.max(np.abs(lo_ - lons)) > 1e-9 or np.max(np.abs(la_ - lats)) > 1e-9:
+        dup = len(np.unique(lo_)) < lo_.size or len(np.unique(la_)) < la_.size
+        # defect 39 (fixed in repo a2264a6): read_hotswan kept the row / column two parts share in both of them
+        rec.bad("swan_grid", key, {"lon_read": lo_, "lon_file": lons, "lat_read": la_, "lat_file": lats},
+                "hotswan-shared-row-returned-twice" if dup and kind == "swangrid_hot" else "grid-axes-differ:swan")
+        return
+    fo, do_ = np.asarray(out["freq"].values, dtype="float64"), np.asarray(out["dir"].values, dtype="float64")
+    if fo.shape != fv.shape or do_.shape != dv.shape or np.max(np.abs(fo - fv)) > 1e-12 or np.max(np.abs(do_ - dv)) > 1e-9:
+        rec.bad("swan_grid", key, {"freq_read": fo, "dir_read": do_}, "spectral-axes-differ:swan_grid")
+        return
+    got = out["efth"].transpose("time", "lat", "lon", "freq", "dir").values
+    if got.shape != want.shape:
+        rec.bad("swan_grid", key, {"shape_read": got.shape, "shape_file": want.shape}, "shape-differs:swan_grid")
+        return
+    ok, worst = close(got, want, 1e-9, atol=1e-300)
+    if ok:
+        rec.ok("swan_grid", key)
+        rec.note("swan_hot_parts_merged" if kind == "swangrid_hot" else "swan_gridded_file")
+        return
+    # where did each position's spectrum come from?  (diagnosis for the replay)
+    moved = bool(np.allclose(np.sort(got.reshape(-1)), np.sort(want.reshape(-1)), rtol=1e-9))
+    rec.bad("swan_grid", key, {"worst_over_tol": worst, "same_values_at_other_positions": moved,
+                               "hs_like_read": got.sum((-1, -2))[0], "hs_like_file": want.sum((-1, -2))[0]},
+            "grid-spectra-at-wrong-position-or-wrong:swan_" + ("hot" if kind == "swangrid_hot" else "grid"))
 
 
 def do_xwaves(rec, rng, ws, xr, d, kind):
